@@ -70,7 +70,7 @@ type fpMeterCell struct {
 }
 
 type fpFault struct {
-	Shape string // "transport" (not applied), "p4err" (not applied, per-update INTERNAL), "lost" (applied, response lost), "unknown-bare" (not applied, UNKNOWN without details)
+	Shape string // "transport" (not applied), "p4err" (not applied, per-update INTERNAL), "lost" (applied, response lost), "unknown-bare" (not applied, UNKNOWN without details), "refuse-last" (the last update of the batch is refused with RESOURCE_EXHAUSTED, the others are applied and get their true status)
 }
 
 type fpWriteRec struct {
@@ -402,6 +402,11 @@ func (f *fakeP4) write(req *p4.WriteRequest) error {
 	failed := false
 	for i, u := range req.Updates {
 		f.nupdates++
+		if hasFault && fault.Shape == "refuse-last" && i == len(req.Updates)-1 {
+			errs[i] = &p4.Error{CanonicalCode: int32(codes.ResourceExhausted), Message: "injected per-update refusal"}
+			failed = true
+			continue
+		}
 		c := f.applyUpdate(u)
 		errs[i] = &p4.Error{CanonicalCode: int32(c)}
 		if c != codes.OK {
@@ -421,6 +426,9 @@ func (f *fakeP4) write(req *p4.WriteRequest) error {
 			cs = append(cs, codes.Code(e.CanonicalCode).String())
 		}
 		rec.Err = strings.Join(cs, ",")
+		if hasFault && fault.Shape == "refuse-last" {
+			rec.Err = "injected per-update refusal (" + rec.Err + ")"
+		}
 		return fpStatusWithDetails(status.New(codes.Unknown, "write failed"), details)
 	}
 	return nil
